@@ -163,6 +163,21 @@ Proof.
     fin; [change (2 ^ 3) with 8 | change (2 ^ 5) with 32]; Z.div_mod_to_equations; lia.
 Qed.
 
+(* pairwise disjointness: soundness of the reflective check (generic, no database constants) *)
+Lemma sigs_pairwise_sound : forall ov sigs a b, sigs_pairwise_ok ov sigs = true -> In a sigs -> In b sigs -> sig_ok ov a b = true.
+Proof.
+  intros ov sigs a b H Ha Hb. unfold sigs_pairwise_ok in H. rewrite forallb_forall in H. specialize (H a Ha).
+  rewrite forallb_forall in H. exact (H b Hb).
+Qed.
+Lemma sig_ok_cases : forall ov r1 r2, sig_ok ov (row_sig r1) (row_sig r2) = true ->
+  r_id r1 = r_id r2 \/ sig_conflict (tfixed (r_tmpl r1)) (tmask (r_tmpl r1)) (tfixed (r_tmpl r2)) (tmask (r_tmpl r2)) = true \/
+  in_overlap ov (r_id r1) (r_id r2) = true.
+Proof.
+  intros ov r1 r2 H. unfold row_sig, sig_ok in H.
+  destruct (r_id r1 =? r_id r2) eqn:E; [left; apply Z.eqb_eq; exact E|].
+  destruct (sig_conflict (tfixed (r_tmpl r1)) (tmask (r_tmpl r1)) (tfixed (r_tmpl r2)) (tmask (r_tmpl r2))); [right; left; reflexivity | right; right; exact H].
+Qed.
+
 Lemma bind_range : forall ss ops e, forallb syn_wf ss = true -> bind ss ops = Some e -> env_ok e (flat_map syn_fields ss).
 Proof.
   induction ss as [|s sr IH]; intros ops e Hwf H; cbn [bind flat_map] in *.
